@@ -44,7 +44,7 @@ def iccma(n, atts, labels=None):
 class C11(Property):
     id = "C11"
     families = ["multi"]
-    rule = ("frameworks of 20-60 arguments (quick) / up to 300 (thorough), structured sparse (rings, chains, random blocks, bridges) plus small ones that are also "
+    rule = ("frameworks of 20-60 arguments (quick) / up to 300 (thorough), structured sparse (rings, chains, random blocks, bridges), well-founded ones (trees / sparse DAGs of 18-120 arguments, 12 arguments queried) plus small ones that are also "
             "judged by the reference deciders; for each: argument permutation + attack-line permutation and duplication, disjoint union with another framework "
             "(with and without stable extension), and the cross-semantics relations (GR in ID in PR, DS implies DC when an extension exists, ST=SST=STG when "
             "a stable extension exists) on the answers of all seven solvers; non-trivial = framework with >= 10 arguments")
@@ -59,11 +59,22 @@ class C11(Property):
                 n, atts = gen.random_framework(rng, 8)
                 if n == 0:
                     n, atts = 1, []
+            elif g % 4 == 1:
+                # well-founded frameworks (acyclic: trees, chains with branches, sparse DAGs): one large component whose
+                # grounded extension is the unique extension of every semantics
+                n = rng.randint(18, 60) if tier == "quick" else rng.choice([18, 30, 60, 120])
+                order = list(range(n))
+                rng.shuffle(order)
+                atts = []
+                for i in range(1, n):
+                    for _ in range(1 if rng.random() < 0.8 else 2):
+                        atts.append((order[rng.randrange(max(0, i - 6), i)], order[i]))
+                rng.shuffle(atts)
             else:
                 size = rng.randint(20, 60) if tier == "quick" else rng.choice([20, 40, 80, 150, 300])
                 n, atts = big_framework(rng, size)
             heavy = n > 80
-            args = rng.sample(range(n), min(n, 4 if n > 9 else n))
+            args = rng.sample(range(n), min(n, (12 if g % 4 == 1 else 4) if n > 9 else n))
             qs = []
             for sem in SEMS:
                 if heavy and sem in ("SST", "STG", "ID"):
